@@ -3,6 +3,7 @@ package props
 import (
 	"fmt"
 	"net/http"
+	"runtime"
 	"sort"
 	"strings"
 	"sync"
@@ -108,6 +109,7 @@ func (c *corsCfg) build(cont *restful.Container, tap *predTap) restful.CrossOrig
 			set[p] = true
 		}
 		x.AllowedDomainFunc = func(origin string) bool {
+			runtime.Gosched()
 			res := set[strings.ToLower(origin)]
 			if tap != nil {
 				tap.mu.Lock()
@@ -274,6 +276,11 @@ func c08(ctx *core.Ctx) {
 		for try := 0; try < 10 && hit.Class != "hit"; try++ {
 			hit = rt.GenReq(r, p.t, "common")
 		}
+		type c08Pair struct {
+			origin string
+			req    rt.Req
+		}
+		var pairs []c08Pair
 		for oi, origin := range origins {
 			kinds := []struct {
 				kind string
@@ -305,6 +312,7 @@ func c08(ctx *core.Ctx) {
 				if req.Method == hit.Method {
 					req.BodyLen = hit.BodyLen
 				}
+				pairs = append(pairs, c08Pair{origin, req})
 				p.tap.reset()
 				out := rt.Run(p.with, rt.Dispatch, &req)
 				tw := rt.Run(p.twin, rt.Dispatch, &req)
@@ -359,6 +367,34 @@ func c08(ctx *core.Ctx) {
 					ctx.Sample(doc)
 				}
 			}
+		}
+		if ci%3 == 0 {
+			// the same pairs from 8 goroutines at once: a grant is decided for, and echoes, the request's OWN origin
+			var wg sync.WaitGroup
+			for g := 0; g < 8; g++ {
+				wg.Add(1)
+				go func(g int) {
+					defer wg.Done()
+					for i := g; i < len(pairs); i += 8 {
+						pr := pairs[i]
+						out := rt.Run(p.with, rt.Dispatch, &pr.req)
+						ctx.Eval(1)
+						ctx.Count("concurrent_requests", 1)
+						ac := acHeaders(out.Rec.Hdr())
+						doc := map[string]interface{}{"config": p.cfg, "request": pr.req, "origin": pr.origin, "access_control_headers": ac, "mode": "concurrent", "router": router}
+						if p.cfg.policy(pr.origin) == originNotAllowed {
+							if len(ac) > 0 {
+								ctx.Violation(ci, "c08:grant-to-disallowed:concurrent", fmt.Sprintf("Origin %q is not allowed but (while other requests were in flight) the response carries %v", pr.origin, ac), doc)
+							}
+							continue
+						}
+						if v, ok := ac["Access-Control-Allow-Origin"]; ok && (len(v) != 1 || v[0] != pr.origin) {
+							ctx.Violation(ci, "c08:echo:concurrent", fmt.Sprintf("Access-Control-Allow-Origin is %q for Origin %q (other requests in flight)", v, pr.origin), doc)
+						}
+					}
+				}(g)
+			}
+			wg.Wait()
 		}
 	}
 }
